@@ -3,6 +3,7 @@ package gosym
 import (
 	"fmt"
 	"os"
+	"strconv"
 	"go/constant"
 	"go/token"
 	"go/types"
@@ -129,6 +130,8 @@ type Interp struct {
 	lastSorted   *sortedRec
 	bufTags      map[*Cell]Value
 	lenSeq       int
+	feasCache    map[string]bool
+	FeasCacheHits int
 	runBudget    int
 	RunSteps     int // step budget of the code run under vRun (exceeding it = "does not terminate")
 	externCalls  []string
@@ -179,6 +182,7 @@ func NewInterp(prog *ssa.Program, bank *sym.Bank, pool *sym.Pool) *Interp {
 // ResetInstance clears per-instance results and string-layer state.
 func (in *Interp) ResetInstance() {
 	in.resetInstance()
+	in.feasCache = nil
 	in.SetBank(in.B)
 	in.atomVars = map[string]bool{}
 }
@@ -572,10 +576,29 @@ func (in *Interp) feasible(extra *sym.Term) bool {
 	if v, ok := in.modelSays(extra); ok && v {
 		return true
 	}
+	// paths are re-executed from the start, so the same question comes back: remember the answers
+	key := in.pcKey() + "|" + strconv.Itoa(extra.ID) + "|" + strconv.Itoa(len(in.sideFacts()))
+	if r, ok := in.feasCache[key]; ok {
+		in.FeasCacheHits++
+		return r
+	}
 	asserts := append(append([]*sym.Term(nil), in.pc...), extra)
 	asserts = append(asserts, in.sideFacts()...)
 	v, _ := in.Pool.Feasible(asserts, false)
+	if in.feasCache == nil {
+		in.feasCache = map[string]bool{}
+	}
+	in.feasCache[key] = v != sym.Unsat
 	return v != sym.Unsat
+}
+
+func (in *Interp) pcKey() string {
+	var sb strings.Builder
+	for _, t := range in.pc {
+		sb.WriteString(strconv.Itoa(t.ID))
+		sb.WriteByte(',')
+	}
+	return sb.String()
 }
 
 // branch decides a two-way branch on cond, forking if both sides are feasible.
@@ -1362,6 +1385,8 @@ func (in *Interp) callBuiltin(b *ssa.Builtin, args []Value, site ssa.CallInstruc
 			return in.B.Const(in.WordBits, uint64(len(x.C.Kids)))
 		case *SymStr:
 			return in.symStrLen(x)
+		case AbsSlice:
+			return x.A.Len
 		}
 	case "cap":
 		switch x := args[0].(type) {
@@ -1373,11 +1398,17 @@ func (in *Interp) callBuiltin(b *ssa.Builtin, args []Value, site ssa.CallInstruc
 			return in.B.Const(in.WordBits, uint64(len(x.C.Kids)))
 		}
 	case "append":
-		s := args[0].(Slice)
 		var elemT types.Type
 		if site != nil {
 			elemT = under(site.Common().Args[0].Type()).(*types.Slice).Elem()
 		}
+		if as, ok := args[0].(AbsSlice); ok {
+			if bs, ok := args[1].(AbsSlice); ok {
+				return in.absAppend(as.A, bs.A)
+			}
+			in.unmodelled("append of a concrete slice to an abstract one")
+		}
+		s := args[0].(Slice)
 		switch t := args[1].(type) {
 		case Slice:
 			return in.appendSlice(s, t, elemT)
@@ -1673,6 +1704,9 @@ func (in *Interp) indexAddr(fr *frame, x *ssa.IndexAddr) Value {
 	base := in.get(fr, x.X)
 	idx := in.get(fr, x.Index).(*sym.Term)
 	switch b := base.(type) {
+	case AbsSlice:
+		_, signed, _ := in.intWidth(x.Index.Type())
+		return in.absIndexAddr(b.A, idx, signed)
 	case Slice:
 		if b.Len < 0 {
 			in.unmodelled("index into the bytes of a symbolic string")
@@ -1701,6 +1735,19 @@ func (in *Interp) sliceOp(fr *frame, x *ssa.Slice) Value {
 			in.unmodelled("slice expression with symbolic bound")
 		}
 		return int(n)
+	}
+	if as, ok := base.(AbsSlice); ok {
+		var lo, hi *sym.Term
+		if x.Low != nil {
+			lo = in.get(fr, x.Low).(*sym.Term)
+		}
+		if x.High != nil {
+			hi = in.get(fr, x.High).(*sym.Term)
+		}
+		if x.Max != nil {
+			in.unmodelled("three-index slice of an abstract slice")
+		}
+		return in.absSlice(as.A, lo, hi)
 	}
 	switch b := base.(type) {
 	case string:
@@ -2175,7 +2222,14 @@ func (in *Interp) eqValues(a, b Value) *sym.Term {
 		if y, ok := b.(*sym.Term); ok && y.IsConst() {
 			return in.B.Bool(x.C == nil && y.C == 0)
 		}
+	case AbsSlice:
+		if y, ok := b.(Slice); ok && y.Arr == nil {
+			return in.B.False()
+		}
 	case Slice:
+		if _, ok := b.(AbsSlice); ok && x.Arr == nil {
+			return in.B.False()
+		}
 		y := b.(Slice)
 		if x.Arr == nil || y.Arr == nil {
 			return in.B.Bool(x.Arr == nil && y.Arr == nil)
